@@ -308,4 +308,7 @@ def run(repo, tier) -> Result:
     # default position of reading()/prev_reading()/has_reading after calculate() is the newest candle; names never contain the separator
     check_active_cursor("C20", res, repo)
     check_name_sanitised("C20", res, repo)
+    from ..framework_rules import check_name_matching
+
+    check_name_matching("C20", res, repo)
     return res
